@@ -182,3 +182,15 @@ func (lalr *LALR1) GenErrorCode() int {
 func (lalr *LALR1) GenAcceptCode() int {
 	return len(lalr.G.LR0.LR0Closure) + 200
 }
+
+// walk from state along the symbols, return the state reached, or -1
+func (lalr *LALR1) walkPath(state int, syms []*symbol.Symbol) int {
+	for _, sy := range syms {
+		index, err := lalr.fetchTransIndex(state, int(sy.ID))
+		if err != nil {
+			return -1
+		}
+		state = lalr.trans[index].to
+	}
+	return state
+}
